@@ -16,5 +16,10 @@ GraphFamily(f, n, k) ==
     [] f = "A4o" -> OrderedADMG(4)
     [] f = "A4"  -> AllADMG(4)
     [] f = "M3"  -> AllMixed(3)
+    \* two chains 1 -> 2 -> 5 and 3 -> 4 -> 5 into one outcome with optional cross edges and confounders: the smallest
+    \* shapes on which ID recurses through line 7 twice (512 graphs)
+    [] f = "P5"  -> {MkG(1..5, {<<1, 2>>, <<2, 5>>, <<3, 4>>, <<4, 5>>} \cup d2, b) :
+                        d2 \in SUBSET {<<1, 3>>, <<1, 4>>, <<2, 4>>},
+                        b \in SUBSET {{3, 5}, {1, 3}, {1, 4}, {1, 5}, {2, 4}, {3, 4}}}
     [] f = "RND" -> RandomADMGs(n, k)
 =============================================================================
